@@ -44,9 +44,10 @@ THEOREMS = [
     "tree_reparse_plain", "tree_reparse_pretty", "tree_roundtrip", "pretty_plain_same",
     "refit_only_bound_prefixes", "attr_without_colon", "chunking_irrelevant",
     "plain_tokens", "pretty_tokens", "plain_end_to_end", "pretty_end_to_end",
+    "plain_ns_flatten", "pretty_ns_flatten", "spec_tree_canon", "infoset_flatten", "request_end_to_end",
 ]
 
-PRE = "From SV Require Import Lib.Base Gen.C04Tables C04.Model C04.Tokens."
+PRE = "From SV Require Import Lib.Base Gen.C04Tables C04.Model C04.Tokens C04.NsModel."
 
 K_ENTITY = "C04:text-contains-entity-reference"
 K_QNAME = "C04:attr-value-looks-like-qname"
@@ -102,6 +103,33 @@ def c_elem(t):
         clist(["(%s, %s)" % (cstr(a), c_text(v)) for a, v in attrs], "str * text"),
         copt(None if text is None else c_text(text), "text"),
         clist([c_elem(k) for k in kids], "elem"))
+
+
+def c_nelem(t):
+    """t = (prefix, name, expns, [(p, u)], [(attr qname, value)], text or None, [kids])"""
+    pf, name, ex, nsp, attrs, text, kids = t
+    return "(NEl %s %s %s %s %s %s %s)" % (
+        c_ostr(pf), cstr(name), c_ostr(ex), c_pairs(nsp),
+        clist(["(%s, %s)" % (cstr(a), c_text(v)) for a, v in attrs], "str * text"),
+        copt(None if text is None else c_text(text), "text"),
+        clist([c_nelem(k) for k in kids], "nelem"))
+
+
+def c_ename(en):
+    return "(%s, %s)" % (c_ostr(en[0]), cstr(en[1]))
+
+
+def c_position(p):
+    path, what, s = p
+    return "(%s, %s, %s)" % (clist(["(%d%%nat, %s)" % (i, c_ename(en)) for i, en in path], "nat * ename"),
+                             copt(None if what is None else c_ename(what), "ename"), cstr(s))
+
+
+def dump_nelem(e):
+    """suds Element -> the tuple c_nelem prints (taken at the `marshalled` hook)"""
+    return (e.prefix, e.name, e.expns, [(p, u) for p, u in e.nsprefixes.items()],
+            [(a.qname(), "" if a.value is None else str(a.value)) for a in e.attributes],
+            None if e.text is None else str(e.text), [dump_nelem(c) for c in e.children])
 
 
 def c_ev(e):
@@ -540,8 +568,15 @@ class Clients(object):
 
     def client(self, cfg):
         if cfg not in self.by_cfg:
+            from suds.plugin import MessagePlugin
             pretty, prefixes = cfg
-            self.by_cfg[cfg] = self.U.client_from_wsdl(self.wsdl, nosend=True, prettyxml=pretty, prefixes=prefixes)
+            owner = self
+
+            class Grab(MessagePlugin):
+                def marshalled(self, context):
+                    owner.last_tree = dump_nelem(context.envelope)
+            self.by_cfg[cfg] = self.U.client_from_wsdl(self.wsdl, nosend=True, prettyxml=pretty, prefixes=prefixes,
+                                                       plugins=[Grab()])
         return self.by_cfg[cfg]
 
     def request(self, cfg, vs, op="f"):
@@ -1019,7 +1054,7 @@ def run(ck):
     rpool = (fixed + rng.sample(short, 400) + mid[:500] + medium + longs[:2000 if thorough else 60]
              + [q + alpha_random(rng, 0, 3) for q in QNAMEY * 3])
     rpool = [s for s in rpool if is_legal(s)]
-    ncalls = 6000 if thorough else 700
+    ncalls = 6000 if thorough else 450
     for n in range(ncalls):
         cfg = CONFIGS[n % 4]
         op = OPS[(n // 4) % 3]
@@ -1060,6 +1095,83 @@ def run(ck):
     eval_req("req", cases, meta)
 
     lap("req")
+    # ------------------------------------------------------------------ doc (requests judged as whole documents)
+    cases, meta = [], []
+    ndoc = 1500 if thorough else 150
+    dpool = [s for s in fixed + medium[:300] + mid[:200] + rng.sample(short, 200)
+             + [q + alpha_random(rng, 0, 3) for q in QNAMEY] if is_legal(s) and len(s) <= 48]
+    for n in range(ndoc):
+        cfg = CONFIGS[n % 4]
+        op = OPS[(n // 4) % 3]
+        vs = tuple(rng.choice(dpool) for _ in range(5))
+        clients.last_tree = None
+        r = guard(clients.request, cfg, vs, op)
+        tree = clients.last_tree
+        doc = r[1].decode("utf-8", "replace") if r[0] == "ok" else "\x00" + r[1]
+        positions, seen_all, err = [], [], None
+        nsroot = guard(clients.U.expat_parse, r[1]) if r[0] == "ok" else ("err", r[1])
+        if nsroot[0] == "ok":
+            # path of (child index, expanded name) as the independent namespace-aware parser reports them
+            root = nsroot[1]
+            body_i = [i for i, c in enumerate(root.elements()) if c.name == "Body"]
+            wrap = root.elements()[body_i[0]].elements()[0] if body_i and root.elements()[body_i[0]].elements() else None
+            base = [(0, (root.ns, root.name))]
+            if wrap is not None:
+                base += [(body_i[0], (root.elements()[body_i[0]].ns, "Body")), (0, (wrap.ns, wrap.name))]
+                for (label, path, attr), s in zip(REQ_POS, vs):
+                    node, steps = wrap, []
+                    for l in path:
+                        idx = [i for i, c in enumerate(node.elements()) if c.name == l]
+                        if not idx:
+                            node = None
+                            break
+                        node = node.elements()[idx[0]]
+                        steps.append((idx[0], (node.ns, node.name)))
+                    if node is None:
+                        continue
+                    positions.append((base + steps, (None, attr) if attr else None, s))
+                    seen_all.append(node.attrs.get((None, attr)) if attr else node.own_text())
+            if (root.ns, root.name) != (SOAPENV, "Envelope") or not body_i or wrap is None \
+                    or root.elements()[body_i[0]].ns != SOAPENV or (wrap.ns, wrap.name) != (TNS, {"f": "Wrapper"}.get(op, op)):
+                err = "frame"
+        else:
+            err = nsroot[1]
+        if tree is None:
+            tree = (None, "\x00no-tree", None, [], [], None, [])
+        if len(positions) != 5:
+            positions = positions + [([(0, (None, "\x00missing"))], None, "")]
+        cases.append("(%s, %s, %s, %s)" % (c_nelem(tree), cbool(cfg[0]), cstr(doc),
+                                           clist([c_position(p) for p in positions], "position_t")))
+        meta.append({"values": vs, "seen": seen_all, "operation": op, "prettyxml": cfg[0], "prefixes": cfg[1],
+                     "document": doc, "error": err})
+        ck.seen(("doc", vs, op, cfg), nontrivial=True)
+        ck.count("doc-" + op)
+    if ndoc:
+        ck.sample({"group": "doc", "operation": meta[1]["operation"], "values": meta[1]["values"],
+                   "document": meta[1]["document"][:1200]})
+    res = run_grouped(ck, "doc", "doc_case", cases, ["doc_agrees", "doc_spec_ok"],
+                      suspects=[i for i, m in enumerate(meta) if list(m["seen"]) != list(m["values"])], group=5)
+    bad_spec = set(res["doc_spec_ok"])
+    for i in sorted(bad_spec):
+        m = meta[i]
+        keys = [classify_req(v, lab in ("t@a", "c@a"), sn)[0] if sn != v else "same"
+                for v, sn, lab in zip(m["values"], list(m["seen"]) + [None] * 5, [p[0] for p in REQ_POS])]
+        if m["error"] is None and len(m["seen"]) == 5 and all(k for k in keys) and any(k != "same" for k in keys):
+            for k, v, sn, lab in zip(keys, m["values"], m["seen"], [p[0] for p in REQ_POS]):
+                if k != "same":
+                    ck.failing_input(k, classify_req(v, lab in ("t@a", "c@a"), sn)[1], dict(m, kind="doc"))
+            continue
+        ck.failing_input("C04:request-document",
+                         "operation %s (%s; prettyxml=%s, prefixes=%s) given %r sends a document in which the XML grammar, "
+                         "decoding and namespace resolution do not find these strings at their positions "
+                         "(independent parser reads %r; %s)" % (m["operation"], OP_STYLE[m["operation"]], m["prettyxml"],
+                                                                m["prefixes"], m["values"], m["seen"], m["error"]),
+                         dict(m, kind="doc"))
+    for i in res["doc_agrees"]:
+        disagree("whole-document serialisation (nsdeclarations / Element.plain,str / Document)",
+                 {k: meta[i][k] for k in ("values", "operation", "prettyxml", "prefixes", "document")})
+
+    lap("doc")
     # ------------------------------------------------------------------ rep (independent writer -> suds)
     cases, meta = [], []
     ppool = fixed + rng.sample(short, 500) + mid[:400] + medium + longs[:2000 if thorough else 80]
@@ -1277,6 +1389,12 @@ def replay(ck, payload):
             label, path, attr = [p for p in REQ_POS if p[0] == pos][0]
             node = w.path(*path)
             print("expat reads :", repr(dict(node.attrs).get(attr) if attr else node.text()), " sent:", repr(v))
+        elif kind == "doc":
+            cl = Clients()
+            data = cl.request((payload["prettyxml"], payload["prefixes"]), tuple(payload["values"]),
+                              payload.get("operation", "f"))
+            print("document now:", data.decode("utf-8"))
+            print("values given:", payload["values"])
         elif kind == "refit":
             from suds.sax.element import PrefixNormalizer
             r = Element("r")
